@@ -20,6 +20,9 @@ INTERIOR = ("Cell<", "RefCell<", "Mutex<", "RwLock<", "Atomic", "UnsafeCell<", "
 
 
 def check(env, rep, tier):
+    include(rep, env, tier, "c20", ("C20.2",), "C12.5",
+            "'each transfer observes exactly the responses it would observe if it ran alone': the handler reaches the per-key states only through "
+            "the keyed lookup - it never walks, removes or replaces entries of other keys")
     configs = ["default"] if tier == "quick" else ["default", "udp"]
     rep.configs = configs
     for cfg in configs:
